@@ -144,8 +144,16 @@ def h3(ctx):
     nodes = []
     for g in _with_helpers(ctx, f):
         nodes.extend(ast.walk(g.node))
+    # `for ... in os.walk(...)`, also through a local name bound to the os.walk(...) call
+    walk_names = {}
     for n in nodes:
-        if isinstance(n, ast.For) and isinstance(n.iter, ast.Call) and \
+        if isinstance(n, ast.Assign) and len(n.targets) == 1 and isinstance(n.targets[0], ast.Name) \
+                and isinstance(n.value, ast.Call) and ctx.prog.resolve_name('core', dotted(n.value.func) or '') == 'os.walk':
+            walk_names[n.targets[0].id] = n.value
+    for n in nodes:
+        if isinstance(n, ast.For) and isinstance(n.iter, ast.Name) and n.iter.id in walk_names:
+            n = _ForView(n, walk_names[n.iter.id])
+        if isinstance(n, (ast.For, _ForView)) and isinstance(n.iter, ast.Call) and \
                 ctx.prog.resolve_name('core', dotted(n.iter.func) or '') == 'os.walk':
             body_calls = [ctx.prog.resolve_name('core', dotted(m.func) or '') for m in ast.walk(n)
                           if isinstance(m, ast.Call)]
@@ -163,6 +171,9 @@ def h3(ctx):
         topdown = bool(walk_for.iter.args[1].value)
     relist = any(isinstance(m, ast.Call) and ctx.prog.resolve_name('core', dotted(m.func) or '') in
                  ('os.listdir', 'os.scandir') for m in ast.walk(walk_for))
+    # ... or remembers what it has pruned (a set that receives the pruned directory and is consulted for children)
+    relist = relist or any(isinstance(m, ast.Call) and isinstance(m.func, ast.Attribute) and m.func.attr == 'add'
+                           and any(isinstance(a, ast.Name) for a in m.args) for m in ast.walk(walk_for))
     obs.append(Ob('H3', 'Cache.check/prune-bottom-up', (not topdown) and relist or
                   (not topdown and _uses_removedirs(ctx, walk_for)),
                   'empty directories are pruned by a top-down os.walk using the listing taken before any removal: a '
@@ -180,6 +191,22 @@ def h3(ctx):
     obs.append(Ob('H3', 'Cache.check/files-before-dirs', rm_for is not None and seen_both and ordered,
                   'unknown files must be removed before empty directories are looked for', f.loc(walk_for)))
     return obs
+
+
+class _ForView:
+    """A `for` loop over a name bound to os.walk(...), seen as if it iterated the call directly."""
+    def __init__(self, node, call):
+        self._node = node
+        self.iter = call
+        self.body = node.body
+        self.orelse = node.orelse
+        self.target = node.target
+        self.lineno = node.lineno
+        self.col_offset = node.col_offset
+        self._fields = node._fields
+
+    def __getattr__(self, name):
+        return getattr(self._node, name)
 
 
 def _same_value(a, b, trace, depth=0):
@@ -268,7 +295,8 @@ def h4(ctx):
         # with the same root expression
         roots = []
         for e in p.trace:
-            if e.kind == 'MCALL' and e.d['name'] == 'add' and e.d['args']:
+            if e.kind == 'MCALL' and e.d['name'] == 'add' and e.d['args'] and any(
+                    x.k == 'col' and x.a[1] == 'filename' for x in deep_values(e.d['args'][0], p.trace)):
                 a = e.d['args'][0]
                 good = a.k == 'ext' and a.a[0] == 'os.path.join'
                 if good:
